@@ -63,6 +63,25 @@ func mutateNested(v any) {
 }
 
 func (o *owned) mutate(plausible bool) {
+	// a slice that is a prefix of a longer buffer: the caller reuses the whole buffer
+	if sp := o.ints[len(o.ints):cap(o.ints)]; len(sp) > 0 && o.op != "Shape" { // only buffers the caller made
+		for i := range sp {
+			sp[i] = 1 + i
+		}
+		evid.Class("C10.spare_capacity_overwritten")
+	}
+	if sp := o.ranges[len(o.ranges):cap(o.ranges)]; len(sp) > 0 {
+		for i := range sp {
+			sp[i] = tensor.Range{From: i, To: i + 1}
+		}
+		evid.Class("C10.spare_capacity_overwritten")
+	}
+	if sp := o.tensors[len(o.tensors):cap(o.tensors)]; len(sp) > 0 && len(o.tensors) > 0 {
+		for i := range sp {
+			sp[i] = o.tensors[0]
+		}
+		evid.Class("C10.spare_capacity_overwritten")
+	}
 	for i := range o.ints {
 		if plausible {
 			o.ints[i]++
